@@ -119,6 +119,14 @@ CHECKS = {
              "defaults, enum defaults) and yields either a value or NoResolution => SchemaResolutionError by class identity; cases "
              "the statement leaves open are skipped and counted.",
         ref="DESIGN.md §4 C08"),
+    "C15": dict(
+        cat="exploration", tech="runtime monitoring: independent JSON encoder and binary-codec agreement as oracles; known findings attributed by counterfactual re-test of the mechanism",
+        text="json_writer text is parsed line by line and compared, schema-directed and with numbers by value, with an independent "
+             "implementation of the specification's JSON encoding of the value tree (branches learned from the binary encoding of "
+             "the same datum); json_reader output must equal the records the binary codec returns; absent defaulted keys must yield "
+             "defaults in every record of multi-record texts; write_union_type=False must equal the plain projection. Three open "
+             "defects of the JSON codec are reported as KNOWN-FINDING only when their trigger is present and the neutralised case passes.",
+        ref="DESIGN.md §4 C15"),
 }
 
 NOT_YET = "check not built yet in this session (see DESIGN.md §8 build order)"
